@@ -154,7 +154,7 @@ func main() {
 				}
 				seen := map[string]bool{}
 				for _, e := range E.sums[fn].Stores {
-					if e.src.Root >= 0 && e.src.Root < len(fn.Params) && e.dst.Root >= 0 && e.dst.Root < len(fn.Params) && e.src.Root != e.dst.Root {
+					if e.src.Root >= 0 && e.src.Root < len(fn.Params) && e.dst.Root >= 0 && e.dst.Root < len(fn.Params) && (e.src.Root != e.dst.Root || os.Getenv("KEEPS_SAME") != "") {
 						k := fmt.Sprintf("%s: %s <- %s", c.short(fn), E.apString(fn, e.dst), E.apString(fn, e.src))
 						if !seen[k] {
 							seen[k] = true
